@@ -47,7 +47,9 @@
    both, nested in each other's arguments; "redef" sessions are Define ; use ; Redefine (same name, other
    template) ; the same call text again (RedefDiscriminates: the expected tree differs); "fail" sessions put
    a failing input (Fail(kind): language error, recovered panic, parse error, deadline) between the
-   definition and a use (FailKeepsMacros).  Sites RepSiteLo..NS hold the same call several times in one node
+   definition and a use (FailKeepsMacros); "pair" sessions call one macro twice (same input / consecutive inputs,
+   top level / inside functions) with argument trees that differ but print identically in compact form
+   (grouping of an associative operator with float operands, block with / without a comment).  Sites RepSiteLo..NS hold the same call several times in one node
    (two keys of one map literal, both operands, two elements, two arguments) and are always generated for
    the templates without unquote (NoHoles).                                                  *)
 EXTENDS Integers, Sequences, TLC, Json, GrolPrims
@@ -498,9 +500,43 @@ FailStep ==
   /\ Mode = "fail" /\ Len(hist) \in {1, 2} /\ ~HasFailed
   /\ \E k \in 1..Len(FailKinds) : (FailKinds[k] = "timeout" => hist[1].ix = 1) /\ Fail(FailKinds[k])
 
+\* "pair" sessions: two calls of one macro whose argument trees DIFFER but which the compact printer writes with the
+\* same text: the grouping of an associative operator (the printer drops the parentheses of a + (b + c)), and a block
+\* with / without a comment in it (compact form drops comments).  Arguments are syntax: each call gets ITS tree.
+\* Float operands make the two groupings evaluate differently as well.
+Flt(bits) == [k |-> "float", v |-> bits]
+F1 == Flt("3fb999999999999a")  F2 == Flt("3fc999999999999a")  F3 == Flt("3fd3333333333333")   \* 0.1 0.2 0.3
+Cmt(text) == [k |-> "cmt", text |-> text, sp |-> TRUE, sn |-> TRUE]
+AssocOps == <<"+", "*", "&&", "||", "&", "|", "^">>
+NPairClasses == 9
+PairOperands(op) == IF op \in {"+", "*"} THEN <<F1, F2, F3>> ELSE IF op \in {"&&", "||"} THEN <<T, U, T>> ELSE <<X, Y, IntL("3")>>
+PairArg(c, side) ==
+  IF c <= 7 THEN LET op == AssocOps[c]  o == PairOperands(op) IN
+                 IF side = 1 THEN Inf(op, Inf(op, o[1], o[2]), o[3]) ELSE Inf(op, o[1], Inf(op, o[2], o[3]))
+  ELSE IF c = 8 THEN Fn("", <<>>, FALSE, FALSE, IF side = 1 THEN <<Cmt("/* c */"), Inf("+", F1, F2)>> ELSE <<Inf("+", F1, F2)>>)
+  ELSE If(T, IF side = 1 THEN <<Cmt("/* c */"), F1>> ELSE <<F1>>, TRUE, <<One>>)
+PairDefs == << D(P1, Inf("-", H(1), One)), D(P1, Arr(<<H(1), H(1)>>)) >>
+PCall(c, side) == Call(Id("m"), <<PairArg(c, side)>>)
+InFn(name, call) == Fn(name, <<>>, FALSE, FALSE, <<call>>)
+\* shapes 1, 2: both calls in one input (top level / inside two functions); shapes 3, 4: in consecutive inputs
+PairWhole(shape, c, o) ==
+  IF shape = 1 THEN <<Bi("println", <<PCall(c, o)>>), Bi("println", <<PCall(c, 3 - o)>>)>>
+  ELSE <<InFn("ff", PCall(c, o)), InFn("gg", PCall(c, 3 - o)), Bi("println", <<Call(Id("ff"), <<>>)>>), Bi("println", <<Call(Id("gg"), <<>>)>>)>>
+PairFirst(shape, c, o)  == IF shape = 3 THEN <<Bi("println", <<PCall(c, o)>>)>> ELSE <<PCall(c, o)>>
+PairSecond(shape, c, o) == IF shape = 3 THEN <<InFn("ff", PCall(c, 3 - o)), Bi("println", <<Call(Id("ff"), <<>>)>>)>> ELSE <<PCall(c, 3 - o)>>
+PairDefine == Len(hist) = 0 /\ \E i \in 1..Len(PairDefs) : Define("m", PairDefs[i].ps, PairDefs[i].tpl, "pair", i)
+PairExpand ==
+  /\ Mode = "pair"
+  /\ \E c \in 1..NPairClasses, o \in 1..2 :
+       \/ Len(hist) = 1 /\ \E shape \in 1..2 : ExpandProgram(PairWhole(shape, c, o), "pair")
+       \/ Len(hist) = 1 /\ \E shape \in 3..4 : ExpandProgram(PairFirst(shape, c, o), "pair-first")
+       \/ /\ Len(hist) = 2 /\ hist[2].feat = "pair-first"
+          /\ \E shape \in 3..4 : hist[2].prog = PairFirst(shape, c, o) /\ ExpandProgram(PairSecond(shape, c, o), "pair")
+
 Next == \/ MainDefine \/ MainExpand \/ NoMacroExpand \/ SmallDefine \/ SmallExpand
         \/ RedefDefine \/ RedefExpand \/ RedefStep
         \/ FailDefine \/ FailExpand \/ FailStep
+        \/ PairDefine \/ PairExpand
 Spec == Init /\ [][Next]_vars
 
 \* ------------------------------------------------------------------ properties
@@ -544,6 +580,11 @@ ArgsFirst ==
 \* re-definition than before it (so a stale expansion cannot pass)
 RedefDiscriminates ==
   (Mode = "redef" /\ Len(hist) = 4 /\ hist[4].prog = hist[2].prog) => hist[4].out # hist[2].out
+\* the two arguments of a pair are different trees and both reach the expanded program (a session whose two
+\* calls got the same argument tree cannot pass)
+PairDiscriminates ==
+  /\ \A c \in 1..NPairClasses : PairArg(c, 1) # PairArg(c, 2)
+  /\ (Mode = "pair" /\ Len(hist) = 3) => hist[3].out # hist[2].out
 \* a defined macro is still expanded after a failing input
 FailKeepsMacros ==
   (Mode = "fail" /\ LastIsExp /\ Deviation = {}) => ~AnyMacroCall(hist[Len(hist)].out, macros) /\ "m" \in DOMAIN macros
